@@ -204,6 +204,13 @@ TWINS = [
      {"type": "record", "name": "R", "namespace": "tw", "fields": [{"name": "a", "type": {"type": "record", "name": "X", "fields": [{"name": "y", "type": "string"}, {"name": "z", "type": "boolean"}]}}, {"name": "b", "type": "X"},
                                                                    {"name": "e", "type": {"type": "enum", "name": "E", "symbols": ["Q"]}}, {"name": "e2", "type": ["null", "E"]}]}),
     ({"type": "array", "items": {"type": "fixed", "name": "F", "size": 2}}, {"type": "map", "values": {"type": "fixed", "name": "F", "size": 5}}),
+    # equal canonical forms, different logical annotations
+    ({"type": "record", "name": "Event", "fields": [{"name": "day", "type": "int"}, {"name": "at", "type": "long"}, {"name": "id", "type": "string"}]},
+     {"type": "record", "name": "Event", "fields": [{"name": "day", "type": {"type": "int", "logicalType": "date"}}, {"name": "at", "type": {"type": "long", "logicalType": "time-micros"}},
+                                                      {"name": "id", "type": {"type": "string", "logicalType": "uuid"}}]}),
+    # a generation that cannot end (recursion through an array) followed by an ordinary list over the same type name
+    ({"type": "record", "name": "Node", "fields": [{"name": "children", "type": {"type": "array", "items": "Node"}}]},
+     {"type": "record", "name": "Node", "fields": [{"name": "value", "type": "int"}, {"name": "next", "type": ["null", "Node"]}]}),
 ]
 
 
@@ -232,6 +239,14 @@ def run_interleaved(unit, tier):
                 try:
                     gens = [u.generate_many(copy.deepcopy(pair[i]) if forms[i] == "raw" else parsed[i], 3) for i in (0, 1)]
                     for which in order:
+                        node, defs = resolved[which]
+                        if doomed_recursion(node, defs):
+                            # the recorded finding: this generation never ends; what matters here is what it leaves behind
+                            try:
+                                next(gens[which])
+                            except (RecursionError, choice.Horizon):
+                                gens[which] = u.generate_many(copy.deepcopy(pair[which]), 3)
+                            continue
                         v = next(gens[which])
                         res.evals += 1
                         node, defs = resolved[which]
@@ -240,7 +255,9 @@ def run_interleaved(unit, tier):
                                               f"value {short(v, 200)} pulled from the generator of schema #{which} does not conform to it | {short(info, 400)}", dict(info, answers=list(ch.choices))))
                         else:
                             try:
-                                fa.schemaless_writer(io.BytesIO(), parsed[which], v)
+                                bfo = io.BytesIO()
+                                fa.schemaless_writer(bfo, parsed[which], v)
+                                fa.schemaless_reader(io.BytesIO(bfo.getvalue()), parsed[which])
                             except Exception as e:
                                 res.add(Violation("c20.interleaved", f"interleaved-rejected:{type(e).__name__}", f"{e} | {short(info, 300)}", dict(info, answers=list(ch.choices))))
                 finally:
